@@ -26,7 +26,7 @@ def all_strats(tree, prefix=()):
     return out
 
 
-def gen_case(rng, fi=None):
+def gen_case(rng, fi=None, rotate=False):
     spec = G.gen_spec(rng, fi_tree=(rng.random() < 0.2) if fi is None else fi)
     # keep prices present and positive from date 1 on for the rebalance itself
     for t, col in spec["prices"].items():
@@ -50,15 +50,23 @@ def gen_case(rng, fi=None):
         k = 0         # an empty target vector ("hold nothing"): everything open is closed, the value stays in cash
     idxs = sorted(rng.sample(range(len(kids)), k))
     dropped = None
-    withsub = [(p, n) for p, n in strats if any("sec" not in kd for kd in n["kids"]) and len(n["kids"]) >= 2]
-    if withsub and rng.random() < 0.5:
+    withsub = [(p, n) for p, n in strats if any("sec" not in kd for kd in n["kids"]) and len(n["kids"]) >= 2] if rotate else []
+    if rotate and withsub:
         # rotating away from a sub-strategy: a parent of sub-strategies whose targets leave one of them out (or give it exactly 0) -
         # whatever it holds by then is closed and its capital handed back
-        path, node = rng.choice(withsub)
+        deep = [(p, n) for p, n in withsub if p]      # a parent that is itself a sub-strategy (three levels), when there is one
+        path, node = rng.choice(deep if deep and rng.random() < 0.6 else withsub)
         kids = node["kids"]
-        dropped = rng.choice([i for i, kd in enumerate(kids) if "sec" not in kd])
-        others = [i for i in range(len(kids)) if i != dropped]
-        idxs = sorted(rng.sample(others, rng.randint(1, len(others))))
+        subs = [i for i, kd in enumerate(kids) if "sec" not in kd]
+        if rotate == "fund":
+            # ... or funding one: the sub-strategy is among the targets (capital passes from this parent, not from the root)
+            keep = rng.choice(subs)
+            rest = [i for i in range(len(kids)) if i != keep]
+            idxs = sorted([keep] + rng.sample(rest, rng.randint(0, len(rest))))
+        else:
+            dropped = rng.choice(subs)
+            others = [i for i in range(len(kids)) if i != dropped]
+            idxs = sorted(rng.sample(others, rng.randint(1, len(others))))
         nops = max(nops, 8)
     ws = []
     tot = 0.0
@@ -68,7 +76,7 @@ def gen_case(rng, fi=None):
             w = 0.0625 if tot + 0.0625 <= 1.0 else 0.0
         tot += abs(w)
         ws.append(w)
-    if dropped is not None and rng.random() < 0.4:
+    if dropped is not None and rng.random() < 0.4:   # (drawn only in rotating cases)
         idxs.append(dropped)
         ws.append(0.0)
         order = sorted(range(len(idxs)), key=lambda j: idxs[j])
@@ -364,6 +372,13 @@ def run(ctx, bt, n=None, name="rebalance-algo"):
         ctx.evaluations += 1
         if len(ctx.samples) < 2:
             ctx.sample({"tree": case["spec"]["tree"], "path": case["path"], "targets": case["targets"], "cash": case["cash"], "notional": case["notional"]})
+        run_case(ctx, bt, case, collected)
+    # parents rotating away from a sub-strategy (generated after the main family, whose random stream is left as it was)
+    for _ in range(n or ctx.scale(260, 4000)):
+        flavour = "drop" if _ % 2 == 0 else "fund"
+        case = gen_case(ctx.rng, rotate=flavour)
+        ctx.evaluations += 1
+        ctx.count("cases:parent-of-sub-strategies:" + flavour)
         run_case(ctx, bt, case, collected)
     compare_model(ctx, bt, collected, name)
     over_time(ctx, bt, ctx.scale(40, 600))
